@@ -27,7 +27,8 @@ for pid,r in det.items():
         if ln.startswith('VIOLATION') and m:
             try:
                 j=json.load(open(m.group(1))); fo=j['failed_obligation']
-                if fo.get('unit')=='twin': how.add('%s: witness on the real code (%s)'%(pid,fo['function']))
+                if fo.get('unit')=='fallback-search': how.add('%s: witness on the real code (directed search `%s` after UNDECIDED)'%(pid,fo['function']))
+                elif fo.get('unit')=='twin': how.add('%s: witness on the real code (%s)'%(pid,fo['function']))
                 elif fo.get('unit')=='kani': how.add('%s: Kani harness %s'%(pid,fo['function']))
                 else: how.add('%s: Verus obligation in %s%s'%(pid,fo['function'],'' if j.get('witness') else ' (no-failing-input-found)'))
             except Exception as e: how.add('%s: violation'%pid)
